@@ -155,7 +155,7 @@ def gen_kernel(metric, nd):
     return g
 
 
-def gen_kernel_ea(metric):
+def gen_kernel_ea(metric, nd=False):
     """small DTW problems with an early-abandoning bound (C03): no psi, bounds from well below to well above the distances that occur"""
     def g(rng, n):
         for _ in range(n):
@@ -171,5 +171,10 @@ def gen_kernel_ea(metric):
                 s['penalty'] = fx(rng.choice([0.5, 1.0, 2.0]))
             if rng.random() < 0.25:
                 s['max_step'] = fx(rng.choice([1.5, 3.0]))
-            yield dict(s1={'buf': series(rng, l1)}, l1=l1, s2={'buf': series(rng, l2)}, l2=l2, settings={'struct': s})
+            d = rng.randint(1, 3) if nd else 1
+            a = dict(s1={'buf': series(rng, l1 * d)}, l1=l1, s2={'buf': series(rng, l2 * d)}, l2=l2)
+            if nd:
+                a['ndim'] = d
+            a['settings'] = {'struct': s}
+            yield a
     return g
